@@ -281,7 +281,8 @@ def r3_super_first(ctx: Context) -> None:
     ctx.floor("R3", "_set_random_state overrides", n, 4)
     base = ctx.func("black_it.utils.seedable:BaseSeedable._set_random_state")
     rng = [cl for cl in calls_in(base.node) if (dotted(cl.func) or "").split(".")[-1] == "default_rng"]
-    ok = len(rng) == 1 and len(rng[0].args) == 1 and src(rng[0].args[0]) in ("self.random_state", base.bound_params[0], f"self._BaseSeedable__random_state", "self.__random_state")
+    seed_arg = (rng[0].args[0] if rng[0].args else kwarg(rng[0], "seed")) if len(rng) == 1 else None      # positional or `seed=`
+    ok = seed_arg is not None and len(rng[0].args) + len(rng[0].keywords) == 1 and src(seed_arg) in ("self.random_state", base.bound_params[0], "self._BaseSeedable__random_state", "self.__random_state")
     ctx.check(ok, "R3.base", "BaseSeedable._set_random_state:default_rng", "the generator is default_rng(seed)", f"generator built by `{src(rng[0]) if rng else '?'}`", base, base.node)
 
 
